@@ -58,13 +58,43 @@ func fileSize(path string) int64 {
 	return st.Size()
 }
 
-// stepPartition is the partition the write-ahead log gets from NewPartitionFn: the real partition, except that the
-// free running replica loop is not started; the engine advances replication with replica.VerifReplicaStep.
-type stepPartition struct {
-	replica.Partition
+// gcGate lets the write ahead log manager's own garbage collect task (a timer goroutine: garbageCollect -> destroy ->
+// IsExpire of every partition, then Stop/Close/remove of the expired ones) run, but only while the history says so:
+// outside a window IsExpire answers false without touching the partition.
+type gcGate struct {
+	open  atomic.Bool
+	polls atomic.Int64 // IsExpire calls forwarded to real partitions
 }
 
-func (p *stepPartition) StartReplica() {}
+// obsPartition is the partition the write-ahead log gets from NewPartitionFn: the real partition, observed. In stepped
+// histories the free running replica loop is not started (the engine advances replication with VerifReplicaStep).
+type obsPartition struct {
+	replica.Partition
+	stepped bool
+	gate    *gcGate
+	ps      *partState
+}
+
+func (p *obsPartition) StartReplica() {
+	if !p.stepped {
+		p.Partition.StartReplica()
+	}
+}
+
+// IsExpire is what writeAheadLog.destroy asks (the garbage collect task).
+func (p *obsPartition) IsExpire() bool {
+	if p.gate == nil || !p.gate.open.Load() || p.ps.dead.Load() {
+		return false
+	}
+	expired := p.Partition.IsExpire()
+	p.ps.polled.Add(1)
+	p.gate.polls.Add(1)
+	if expired {
+		// destroy will now stop and close the partition and remove its directory
+		p.ps.dead.Store(true)
+	}
+	return expired
+}
 
 // famWrap is the data family handed to the real partition / local replicator. It forwards everything to the real
 // family and reports the calls the replicator makes around it.
@@ -80,6 +110,7 @@ type famWrap struct {
 	afterWriteRows func(key partKey, seq int64) // after the rows are in the memory database, before CommitSequence
 	onCommit       func(key partKey, seq int64)
 	onAck          func(key partKey, seq int64)
+	skipAck        func() bool // true: do not forward the ack callback (its consumer group was closed)
 }
 
 func (f *famWrap) ValidateSequence(leader int32, seq int64) bool {
@@ -116,6 +147,9 @@ func (f *famWrap) CommitSequence(leader int32, seq int64) {
 
 func (f *famWrap) AckSequence(leader int32, fn func(seq int64)) {
 	f.DataFamily.AckSequence(leader, func(seq int64) {
+		if f.skipAck != nil && f.skipAck() {
+			return
+		}
 		fn(seq)
 		if f.onAck != nil {
 			f.onAck(f.key, seq)
